@@ -428,7 +428,7 @@ func genACase(t *rapid.T) *acase {
 		case k == 19:
 			// the sending direction stops working while the peer keeps talking:
 			// the application closes its output stream, or writes start to fail
-			c.steps = append(c.steps, step{kind: rapid.SampledFrom([]string{"appclose", "writefail"}).Draw(t, "outfault")})
+			c.steps = append(c.steps, step{kind: rapid.SampledFrom([]string{"appclose", "writefail", "lstclose", "lstclose"}).Draw(t, "outfault")})
 		default:
 			c.steps = append(c.steps, step{kind: "raw", name: "raw", input: rapid.SampledFrom(rawPieces).Draw(t, "raw")})
 		}
@@ -611,6 +611,18 @@ func runACase(c *acase, fail func(format string, args ...any)) (res aresult, inc
 			logf("step %d: the application called Session.Close()", i)
 			res.classes = append(res.classes, "A:app-close-then-more-input")
 			continue
+		case "lstclose":
+			// the application stops accepting bytestreams (once: closing a
+			// listener twice is the application's own mistake)
+			if !e.lstClosed {
+				e.lstClosed = true
+				if p := ev.Guard(func() { _ = e.lst.Close() }); p != "" {
+					fail("Listener.Close panicked: %s", p)
+				}
+			}
+			logf("step %d: the application closed its bytestream listener", i)
+			res.classes = append(res.classes, "A:listener-closed-then-more-input")
+			continue
 		case "writefail":
 			e.sv.Conn.FailWrites(wire.ErrInjected)
 			logf("step %d: from now on every write to the connection fails", i)
@@ -727,7 +739,10 @@ func runACase(c *acase, fail func(format string, args ...any)) (res aresult, inc
 	tFinish := time.Now()
 	logf("finish: %q serve error: %v", verdict, e.sv.Err())
 	if verdict == "" {
-		_ = e.lst.Close()
+		if !e.lstClosed {
+			e.lstClosed = true
+			_ = e.lst.Close()
+		}
 		if !e.waitConsumers(consumerWait) {
 			res.classes = append(res.classes, "A:consumer-left-blocked")
 		}
